@@ -36,6 +36,9 @@ type c07Case struct {
 	SynthTail bool `json:"st,omitempty"`
 	// PadBytes blanks in front of the prefix block: moves every byte of X to another offset without adding a word or a line.
 	PadBytes int `json:"pad,omitempty"`
+	// Trace > 0 (small corpora only): both Match calls run with tracing switched on (no-op tracer; 1 = everything,
+	// 2 = scoring of every license): tracing must not change what is found, alone or in context.
+	Trace int `json:"trace,omitempty"`
 }
 
 var c07Markers = []string{"1.", "2)", "2.0.", "10.2)", "iv.", "a.", "3.", "2.1.", "12)", "b."}
@@ -102,6 +105,9 @@ func c07Gen(t *rapid.T) interface{} {
 	c.X = genRecipe(t, c.Thr)
 	if !c.Corpus.Full {
 		c.Corpus = smallCorpusAround(t, c.X.docs())
+		if lib.IntN(t, 0, 3, "traced") == 0 {
+			c.Trace = lib.IntN(t, 1, 2, "traceKind")
+		}
 	}
 	if lib.IntN(t, 0, 6, "synthetic") == 0 {
 		c.Corpus = smallCorpusAround(t, nil)
@@ -226,8 +232,20 @@ func c07Check(ci interface{}) lib.Outcome {
 			}
 		}
 	}
+	traced := c.Trace > 0 && !c.Corpus.Full
+	if traced {
+		tc := &TraceConfiguration{TracePhases: "*", TraceLicenses: "*", Tracer: func(string, ...interface{}) {}}
+		if c.Trace%2 == 0 {
+			tc = &TraceConfiguration{TracePhases: "score", TraceLicenses: "License/*,Header/*", Tracer: func(string, ...interface{}) {}}
+		}
+		cl.SetTraceConfiguration(tc)
+	}
 	rx := cl.Match(x)
 	rf := cl.Match(full)
+	if traced {
+		cl.SetTraceConfiguration(nil)
+		classes = append(classes, "traced")
+	}
 	want := shift(canon(rx), c.PWords, dLine)
 	got := canon(rf)
 	if !equalRecs(want, got) {
